@@ -517,7 +517,31 @@ class Machine:
                          key_a=_key_brief(self.keys[a[0]]), key_b=_key_brief(self.keys[b[0]]))
         if same and a[1] is not b[1]:
             self.probes['equal_keys_distinct_objects'] += 1
+            if not bad:
+                self._eq_parts(a, b)
         return ('eq', bool(eq), bool(ne), hq)
+
+    def _eq_parts(self, a, b):
+        """Every part of the structure is hashable, and corresponding parts of equal objects are equal/hash-equal."""
+
+        na, nb = self._nodes(a[1])[:60], self._nodes(b[1])[:60]
+        if len(na) != len(nb):
+            return
+        for x, y in zip(na, nb):
+            try:
+                with sched.traced():
+                    ok = (x == y) and not (x != y) and hash(x) == hash(y)
+            except Exception as e:  # noqa: BLE001
+                self.violate('3-eqhash', detail=f'part {type(x).__name__} of a compiled selector is not hashable/comparable: '
+                                                f'{type(e).__name__}: {fp.short(e)}', keys=[a[0], b[0]],
+                             key_a=_key_brief(self.keys[a[0]]), key_b=_key_brief(self.keys[b[0]]))
+                return
+            if not ok:
+                self.violate('3-eqhash', detail=f'corresponding parts ({type(x).__name__}) of two equal compiled selectors '
+                                                'are unequal or hash differently', keys=[a[0], b[0]],
+                             key_a=_key_brief(self.keys[a[0]]), key_b=_key_brief(self.keys[b[0]]))
+                return
+        self.probes['parts_compared'] += len(na)
 
     # -- dispatcher -------------------------------------------------------------
     def run_op(self, op, sequential=True, faulted=False):
@@ -870,51 +894,55 @@ def run_chunk(task, agg):
     cfg = task['config']
     sv = env.load_soupsieve(cache_bound=cfg['bound'])
     for i in task['indices']:
-        seed = runner.derive_seed(task['verif_seed'], PROP, cfg['name'], i)
-        res = run_seeded(sv, seed, cfg['mode'], cfg['bound'])
-        if res.get('violation') or (res.get('probes') or {}).get('mutation_not_rejected'):
-            # the tree let a mutation through (or misbehaved): shared module-level structures may be damaged,
-            # so give the following runs a freshly imported library
-            sv = env.load_soupsieve(cache_bound=cfg['bound'])
-            agg.count('probe:library_reimported_after_damage')
-        if res.get('discarded'):
-            agg.count('discarded:' + res['discarded'])
-            agg.digests[f"{cfg['name']}:{i}"] = 'discarded'
+        agg.merge(runner.isolated(_one_run, sv, task['verif_seed'], cfg, i, len(agg.samples)))
+
+
+def _one_run(sv, verif_seed, cfg, i, nsamples):
+    """One seeded run, in a forked child (see runner.isolated); returns a small Agg."""
+
+    from sim import runner
+    agg = runner.Agg()
+    seed = runner.derive_seed(verif_seed, PROP, cfg['name'], i)
+    res = run_seeded(sv, seed, cfg['mode'], cfg['bound'])
+    if res.get('discarded'):
+        agg.count('discarded:' + res['discarded'])
+        agg.digests[f"{cfg['name']}:{i}"] = 'discarded'
+        return agg
+    agg.runs += 1
+    agg.digests[f"{cfg['name']}:{i}"] = res['digest']
+    agg.count('steps', res['steps'])
+    agg.count('switches', res['switches'])
+    agg.count('ops', res['nops'])
+    agg.count('objects', res['nobjs'])
+    agg.count('mode:' + cfg['mode'])
+    agg.count('bound:%s' % cfg['bound'])
+    agg.count('policy:' + res['policy']['name'])
+    for k, v in res['probes'].items():
+        if k.startswith('fault:exc@step:'):
+            agg.count('faultsite:' + k[15:], v)
             continue
-        agg.runs += 1
-        agg.digests[f"{cfg['name']}:{i}"] = res['digest']
-        agg.count('steps', res['steps'])
-        agg.count('switches', res['switches'])
-        agg.count('ops', res['nops'])
-        agg.count('objects', res['nobjs'])
-        agg.count('mode:' + cfg['mode'])
-        agg.count('bound:%s' % cfg['bound'])
-        agg.count('policy:' + res['policy']['name'])
-        for k, v in res['probes'].items():
-            if k.startswith('fault:exc@step:'):
-                agg.count('faultsite:' + k[15:], v)
-                continue
-            agg.count('probe:' + k, v)
-        for k, v in res['sim_probes'].items():
-            agg.count('probe:' + k, v)
-        p = res['probes']
-        nontrivial = (
-            p.get('eviction', 0) > 0 or p.get('fault:exc@step', 0) > 0 or p.get('fault:stdout-fail', 0) > 0 or
-            p.get('fault:recursion', 0) > 0 or res['overlap'] or p.get('purge_during_inflight_compile', 0) > 0
-        )
-        if nontrivial:
-            agg.add_to_set('sigs', res['sig'])
-        if len(agg.samples) < 2 and nontrivial:
-            w = res['workload']
-            agg.samples.append({
-                'config': cfg['name'], 'index': i, 'run_seed': seed,
-                'keys': [_key_brief(k) for k in w['keys'][:6]], 'n_keys': len(w['keys']),
-                'programs_head': [prog[:10] for prog in w['programs']],
-                'n_ops': res['nops'], 'faults': w.get('faults', [])[:6], 'stdout_faults': w.get('stdout_faults', [])[:4],
-                'faults_fired': res['faults_fired'][:6], 'policy': res['policy'], 'digest': res['digest'],
-            })
-        if res['violation']:
-            agg.violations.append(make_record(res, cfg, i))
+        agg.count('probe:' + k, v)
+    for k, v in res['sim_probes'].items():
+        agg.count('probe:' + k, v)
+    p = res['probes']
+    nontrivial = (
+        p.get('eviction', 0) > 0 or p.get('fault:exc@step', 0) > 0 or p.get('fault:stdout-fail', 0) > 0 or
+        p.get('fault:recursion', 0) > 0 or res['overlap'] or p.get('purge_during_inflight_compile', 0) > 0
+    )
+    if nontrivial:
+        agg.add_to_set('sigs', res['sig'])
+    if nsamples < 2 and nontrivial:
+        w = res['workload']
+        agg.samples.append({
+            'config': cfg['name'], 'index': i, 'run_seed': seed,
+            'keys': [_key_brief(k) for k in w['keys'][:6]], 'n_keys': len(w['keys']),
+            'programs_head': [prog[:10] for prog in w['programs']],
+            'n_ops': res['nops'], 'faults': w.get('faults', [])[:6], 'stdout_faults': w.get('stdout_faults', [])[:4],
+            'faults_fired': res['faults_fired'][:6], 'policy': res['policy'], 'digest': res['digest'],
+        })
+    if res['violation']:
+        agg.violations.append(make_record(res, cfg, i))
+    return agg
 
 
 def replay_record(rec):
@@ -938,6 +966,8 @@ def signature(rec):
             return '3-eqhash:equal-keys-unequal-objects'
         if 'keys are different' in d:
             return '3-eqhash:different-keys-equal-objects'
+        if 'part' in d:
+            return '3-eqhash:parts'
         return '3-eqhash:other'
     if o == '4-copy':
         return f"4-copy:{v.get('how')}"
@@ -1013,12 +1043,11 @@ def minimise_record(sv, rec, budget_n=500, wall_s=150.0):
         if time.time() > t_end:
             b.left = 0
             return False
+        from sim import runner
         try:
-            res = replay(state['sv'], cand)
-        except sched.HarnessError:
+            res = runner.isolated(replay, state['sv'], cand)
+        except RuntimeError:
             return False
-        if res.get('violation') or (res.get('probes') or {}).get('mutation_not_rejected'):
-            state['sv'] = env.load_soupsieve(cache_bound=rec.get('bound'))
         if res.get('discarded') or not res['violation']:
             return False
         new = make_record(res, cand.get('config'), cand.get('index'))
